@@ -160,8 +160,9 @@ func (e *Environment) SaveGlobals(to io.Writer, maxValueLen int) (int, error) {
 		v := e.store[k]
 		if v.Type() == FUNC {
 			f := v.(Function)
-			if f.Name != nil {
+			if f.Name != nil && f.Name.Literal() == k {
 				// Named function inspect is ready for definition, eg func y(a,b){a+b}.
+				// (under another name, eg x=y, it is saved like other variables: x=func y(a,b){a+b})
 				_, err := fmt.Fprintf(to, "%s\n", f.Inspect())
 				if err != nil {
 					return n, err
